@@ -8,6 +8,7 @@
 //!   unbind K | unbindx | unbindalias K HOST  -> u=ok | u=err:<class> | u=hang   (unbindalias: HOST:port-of-#K, never bound)
 //!   bindsame K HOST                  bind HOST with the port number of bind #K
 //!   conn K [id=HEX]                  raw compatible peer connects to bind #K and handshakes -> c#j=ok|refused|hserr:<why>
+//!   impostor K id=HEX as=TYPE       raw client with an incompatible Socket-Type claiming identity HEX -> i#j=done
 //!   connout                          the socket connects out to a raw listener we own -> o#j=ok|err
 //!   staller K off=N mode=stop|close|garbage   raw client that misbehaves after N handshake bytes -> s#j=started
 //!   xchg J                           one message over raw connection J (direction by socket type) -> x#J=ok|fail:<why>
@@ -264,6 +265,22 @@ async fn scenario(head: Vec<String>, ops: Vec<Vec<String>>) -> Vec<String> {
                         }
                     }
                 }
+            }
+            "impostor" => {
+                // a client whose handshake must be refused (incompatible Socket-Type) and whose READY claims the identity HEX:
+                // -> i#j=done whatever the library answers; the connection is closed afterwards
+                let ep = bound[t[1].parse::<usize>().unwrap()].clone();
+                let id = t[2..].iter().find_map(|o| o.strip_prefix("id=")).map(bytes_tok);
+                let as_type = t[2..].iter().find_map(|o| o.strip_prefix("as=")).unwrap_or("PUB").to_string();
+                let j = raws.len();
+                if let Ok(mut s) = raw_connect(&ep).await {
+                    let hb = handshake_bytes(&as_type, id.as_deref());
+                    let _ = s.write_all(&hb).await;
+                    let _ = tokio::time::timeout(Duration::from_millis(300), read_lib_handshake(&mut s)).await;
+                    tokio::time::sleep(Duration::from_millis(100)).await;
+                }
+                out.push(format!("i#{}=done", j));
+                raws.push(None);
             }
             "connout" => {
                 // the socket under test connects out to a listener we own; we accept and handshake
